@@ -54,7 +54,7 @@ class BindEngine(Engine):
         ['dumpcalls']]}]
 
   def gen(self, rng, tier):
-    regs = ginm.gen_regs(rng, lists=0.7, allow_req=False, sels=['f', 'm.f', 'n.m.g', 'm.g', 'pkg.h', 'n.f'])
+    regs = ginm.gen_regs(rng, lists=0.6, allow_req=False, sels=['f', 'm.f', 'n.m.g', 'm.g', 'pkg.h', 'n.f'], shapes=True)
     ops = []
     for _ in range(rng.randint(2, 12)):
       c = rng.choice(regs)
@@ -156,7 +156,7 @@ class BindEngine(Engine):
         dflt = {x: c01.canon_plain(d) for x, d in zip(c['sig']['args'][len(c['sig']['args']) - nd:], c['sig']['defaults'])}
         dflt.update({n: c01.canon_plain(d) for n, d in c['sig']['kwonly'] if d is not None})
         for p, v in own[2]:
-          if p in ('*', '**') or p in supplied:
+          if p in ('*', '**', 'self', 'cls') or p in supplied:
             continue
           if ((c['allow'] and p not in c['allow']) or p in c['deny']) and v != dflt.get(p, '<nodefault>'):
             fails.append(('non-configurable-parameter-injected', '%s.%s received %r (default %r)' %
